@@ -79,8 +79,13 @@ def write_cases(path, enc_ids, dec_cases):
     with open(path, 'w') as f:
         for i in enc_ids:
             f.write('E %d\n' % i)
-        for cid, data in dec_cases:
-            f.write('D %s %s\n' % (cid, data.hex() if data else '-'))
+        for case in dec_cases:
+            if len(case) == 3:      # reuse case: decode the first bytes, then the second bytes INTO THE SAME OBJECT
+                cid, a, b = case
+                f.write('R %s %s %s\n' % (cid, a.hex() if a else '-', b.hex() if b else '-'))
+            else:
+                cid, data = case
+                f.write('D %s %s\n' % (cid, data.hex() if data else '-'))
 
 
 def parse_driver_output(text, out):
